@@ -176,12 +176,14 @@ var sigma1 = []string{"a", "Z", ".", "/", "-", "~", "_", "+", "1", "0", "v"}
 
 var elems = []string{"a.b", "con", "CON", "cOn.txt", "nul.a.b", "com1", "com0", "lpt9", "LPT1.x", "a~1", "a~1.b", "a.b~1", "a~b", "~1", "a~", ".a", "a.", "..", "a..b", "v2", "v1", "v0", "v02", "v2.0", "x.v1", "v", "v10", "-a", "a+", "x y", "é", "gopkg.in",
 	// gopkg.in's conventions on other hosts (they have no meaning there), and near misses of /vN
-	"v2-unstable", "v0-unstable", "v1.2-unstable", "x.v2-unstable", "v2-", "v2+x", "V2"}
+	"v2-unstable", "v0-unstable", "v1.2-unstable", "x.v2-unstable", "v2-", "v2+x", "V2",
+	// major versions at numeric boundaries
+	"v2147483648", "v4294967296", "v18446744073709551616"}
 
 var gopkgSuffix = []string{".v0", ".v1", ".v2", ".v01", ".v", ".v1-unstable", ".v0-unstable", ".v1.2", "-unstable", "/v2", ".v10", ".v1-unstable/x", ".v1/x", "v1", ".V1", ".v1-Unstable"}
 
 var versions = []string{"v0.0.0", "v0.1.0", "v1.0.0", "v1.2.3", "v1", "v1.2", "v2.0.0", "v2", "v2.0.0+incompatible", "v1.0.0+incompatible", "v0.0.0+incompatible", "v3.1.4+incompatible", "v2.0.0+meta", "v2.0.0-pre", "v2.0.0-pre+incompatible",
-	"v0.0.0-20190101000000-abcdefabcdef", "v0.0.0-", "v0.0.0-0", "v1.0.1-0.20190101000000-abcdefabcdef", "v2.0.1-0.20190101000000-abcdefabcdef", "v3.0.0", "v9.0.0", "v10.0.0", "v10.1.1", "v11.0.0", "v02.0.0", "v1.0", "", "1.0.0", "v", "vx", "latest", "v1.0.0.0", "v2.0.0.1", "v18446744073709551616.0.0", "V1.0.0", "v1.0.0 ", "none",
+	"v0.0.0-20190101000000-abcdefabcdef", "v0.0.0-", "v0.0.0-0", "v1.0.1-0.20190101000000-abcdefabcdef", "v2.0.1-0.20190101000000-abcdefabcdef", "v3.0.0", "v9.0.0", "v10.0.0", "v10.1.1", "v11.0.0", "v02.0.0", "v1.0", "", "1.0.0", "v", "vx", "latest", "v1.0.0.0", "v2.0.0.1", "v18446744073709551616.0.0", "v2147483648.0.0", "v4294967296.1.0", "V1.0.0", "v1.0.0 ", "none",
 	// near misses of the one build tag that has a meaning
 	"v2.0.0+incompatible.1", "v2.0.0+incompatiblex", "v2.0.0+incompatible-fork", "v2.0.0+incompatibl", "v2.0.0+Incompatible", "v2.0.0+x.incompatible", "v2.0.0+incompatible+incompatible", "v2.0.0-incompatible", "v3.0.0+incompatible.x"}
 
